@@ -63,6 +63,11 @@ def rand_history(seed: int) -> list:
         # a range of marks laid over markup that is already there, then the start mark deleted on its own (documented: its end goes too)
         kinds = [rng.choice(["wrap_offset", "wrap_pattern"]), "mark_range", "delete"]
         nsteps = 3
+    movemode = not pairmode and rng.random() < 0.12
+    if movemode:
+        # a range (or a point) reference laid over markup, another range next to it, then the end of the first one moved
+        kinds = [rng.choice(["wrap_offset", "wrap_pattern"]), "mark_range", "mark_range", "move_end", "move_end"]
+        nsteps = len(kinds)
     for step in range(nsteps):
         tokens = ml.project(par)
         slots = [t["s"] for t in tokens if t["k"] == "t"]
@@ -100,6 +105,12 @@ def rand_history(seed: int) -> list:
             if not idx:
                 continue
             o = {"op": kind, "i": rng.choice(idx), "alone": note_ok}
+        elif kind == "move_end":
+            name = "rm3_0"
+            if par.get_reference_mark_start(name=name) is None and par.get_reference_mark(name=name) is None:
+                continue
+            old = ml.token_index(par, tokens, "text:reference-mark-end", "text:name", name)
+            o = {"op": kind, "name": name, "old": old, "pos": rng.randint(0, total + 1)}
         elif kind == "mark_first_child":
             if step != nsteps - 1:
                 continue        # a note / annotation only as the last operation (its text is counted by later offsets)
@@ -123,7 +134,7 @@ def rand_history(seed: int) -> list:
                 if starts:
                     i = starts[0]
             o = {"op": "delete", "i": i, "kind": tokens[i - 1].get("tag")}
-        ev, par = event(par, o, tokens, rng.choice((0, 4)) if pairmode and kind == "delete" else (rng.choice((1, 3, 5)) if pairmode and kind == "mark_range" and rng.random() < 0.7 else rng.randint(0, 5)))
+        ev, par = event(par, o, tokens, rng.choice((1, 3, 5)) if movemode and kind == "mark_range" else rng.choice((0, 4)) if pairmode and kind == "delete" else (rng.choice((1, 3, 5)) if pairmode and kind == "mark_range" and rng.random() < 0.7 else rng.randint(0, 5)))
         events.append(ev)
         if "exc" in ev and ev["exc"].startswith("crash"):
             break
